@@ -929,6 +929,12 @@ fn load_config_from_string(cfg: &str) -> Result<SharedConfig, Error> {
     }
 }
 
+/// Verification hook: the loader proper, which the public API only reaches through a file.
+#[cfg(feature = "verif-hooks")]
+pub fn verif_load_config_from_string(cfg: &str) -> Result<SharedConfig, Error> {
+    load_config_from_string(cfg)
+}
+
 #[cfg(test)]
 pub fn load_config_from_string_for_test(cfg: &str) -> Result<SharedConfig, Error> {
     load_config_from_string(cfg)
